@@ -1196,7 +1196,7 @@ class ABCPropertyGraph(ABCPropertyGraphConstants):
                 connected_interfaces = self.get_first_neighbor(node_id=link,
                                                                rel=ABCPropertyGraph.REL_CONNECTS,
                                                                node_label=ABCPropertyGraph.CLASS_ConnectionPoint)
-                if len(connected_interfaces) == 2:  # connected to us and another thing, can delete
+                if len(connected_interfaces) <= 2:  # connected to us and at most one other thing, can delete
                     links_to_delete.add(link)
         # delete nodes in these sets
         for deleted_id in interfaces_to_delete.union(links_to_delete):
